@@ -186,6 +186,42 @@ func experiment(T, K int, bodyKind int, kinds [][]int, bodyVal int) {
 			}
 		}
 	}
+	// the same status rules across threads, ordered by the logical clock: an operation invoked after
+	// another one had returned sees at least what that one saw
+	for t := 0; t < T; t++ {
+		for _, o := range results[t] {
+			for u := 0; u < T; u++ {
+				for _, p := range results[u] {
+					if p.ret >= o.inv {
+						continue
+					}
+					if o.kind == 1 && !o.flag {
+						vrt.Assert(p.kind != 0, "future-done? is false although a deref of the future had already returned")
+						vrt.Assert(!(p.kind == 1 && p.flag), "future-done? went back from true to false (as seen by two threads)")
+					}
+					if o.kind == 2 && !o.flag {
+						vrt.Assert(!(p.kind == 2 && p.flag), "future-cancelled? went back from true to false (as seen by two threads)")
+						vrt.Assert(!(p.kind == 3 && p.flag), "future-cancelled? is false after a future-cancel that returned true")
+					}
+				}
+			}
+			if o.kind == 3 && o.flag {
+				// true only on a future that was still running: not after any deref had returned, unless somebody cancelled before
+				derefBefore, cancelBefore := false, false
+				for u := 0; u < T; u++ {
+					for _, p := range results[u] {
+						if p.kind == 0 && p.ret < o.inv {
+							derefBefore = true
+						}
+						if p.kind == 3 && p.inv < o.ret && !(u == t && p.inv == o.inv) {
+							cancelBefore = true
+						}
+					}
+				}
+				vrt.Assert(!derefBefore || cancelBefore, "future-cancel returned true on a future whose outcome had already been delivered to a deref")
+			}
+		}
+	}
 	if held && anyCancelTrue {
 		vrt.Assert(<-bodyCtxDone, "future-cancel returned true but the body's context was not cancelled")
 		vrt.Assert(boolOf(builtin("future-cancelled?").Fn(context.Background(), []MalType{fv})), "future-cancelled? is false after a successful cancel")
